@@ -17,6 +17,7 @@ import (
 	"strconv"
 	"strings"
 	"sync"
+	"time"
 
 	"github.com/tmpim/casket"
 	"github.com/tmpim/casket/casketfile"
@@ -68,6 +69,8 @@ var (
 	restartCbFails    bool // the next OnRestart callback returns an error
 	shutdownCbFails   bool
 	GracefulByDefault = true
+	// CbDelay makes every callback take this long (widens the windows in which signals overlap)
+	CbDelay time.Duration
 )
 
 func SetRestartCbFails(v bool) { knobMu.Lock(); restartCbFails = v; knobMu.Unlock() }
@@ -145,6 +148,9 @@ func setup(c *casket.Controller) error {
 				res = "err"
 			}
 			Rec.Emit(Event{Ev: "cb", G: gen, Kind: kind, Res: res})
+			if CbDelay > 0 {
+				time.Sleep(CbDelay)
+			}
 			if f {
 				return errors.New("scripted " + kind + " callback failure")
 			}
